@@ -928,6 +928,23 @@ class PathState:
         self.results.append((name, verdict, backend, time.time() - t0, viol, sample))
         return True if verdict == "unsat" else (False if verdict == "sat" else None)
 
+    def ensure_closed(self, name, hyps, goal, note=None):
+        """A self-contained obligation  AND(hyps) => goal  discharged in a fresh solver (the path condition is NOT used):
+        keeps the query small when the path condition holds many irrelevant facts."""
+        t0 = time.time()
+        hs = [_b(h) for h in hyps]
+        verdict, model, backend, _ = solve_exact(hs + [z3.Not(_b(goal))], self.ex.vc_timeout_ms)
+        sample = viol = None
+        need_sample = name not in self.ex.report.obs or self.ex.report.obs[name].sample is None
+        if need_sample or verdict == "sat":
+            gtxt = " ".join(_b(goal).sexpr().split())
+            if need_sample:
+                sample = dict(pc_size=len(hs), verdict=verdict, goal=gtxt[:300], closed=True)
+            if verdict == "sat":
+                viol = dict(model=self._model_dict(model), decisions=list(self.decisions), note=note, goal=gtxt[:600])
+        self.results.append((name, verdict, backend, time.time() - t0, viol, sample))
+        return True if verdict == "unsat" else (False if verdict == "sat" else None)
+
     def lemma(self, name, cond):
         """Ghost lemma: proved as an obligation under the current path condition, then available as a hypothesis."""
         r = self.ensure(name, cond)
